@@ -164,6 +164,7 @@ def e2_checks(pid, tier, seed):
         K = 5 if q else 7
         out.append(spec('total_sym%d' % K, 'chk_total', S(K), '%d fully symbolic bytes through every transport entry point, 3 buffer capacities, interleaved reset/finalize' % K, must_cover=[5]))
         out.append(spec('total_start_sym%d' % (K - 1), 'chk_total', START + S(K - 1), 'start sequence + %d symbolic bytes through every transport entry point' % (K - 1), must_cover=[5]))
+        out.append(spec('arraybuf_big', 'chk_arraybuf_big', S(3), 'ArrayBuf<65600> filled across the 2^16 boundary (narrow length counters)', must_cover=[18], max_steps=20000000))
         out.append(spec('total_end', 'chk_total', START + S(2) + END + S(3), 'frame with symbolic data and symbolic end-sequence payload', must_cover=[5]))
     elif pid == 'C07':
         for n in (range(0, 6) if q else range(0, 9)):
@@ -192,6 +193,8 @@ def e2_checks(pid, tier, seed):
         for variant in range(6):
             out.append(spec('concat_v%d' % variant, 'chk_concat', [variant] + S(K), 'boundary kind %d (0 delivered, 1 invalid message, 2 invalid escape, 3 out of memory, 4 reset, 5 finalize) then %d fully symbolic bytes vs a new decoder' % (variant, K), must_cover=[14]))
             out.append(spec('concat_v%d_frame' % variant, 'chk_concat', [variant] + START + S(2) + END + S(3), 'boundary kind %d then a frame with symbolic data / pad / checksum vs a new decoder' % variant, must_cover=[14]))
+    elif pid == 'C18':
+        out.append(spec('arraybuf_big', 'chk_arraybuf_big', S(3), 'ArrayBuf<65600>: 65534 bytes by extend_from_slice, then 3 symbolic pushes / a 3-byte extend across the 2^16 boundary, truncate and clear (a narrower length counter would wrap)', must_cover=[18], max_steps=20000000))
     elif pid == 'C11':
         g = _lib()
         f1 = list(g.transport_encode(bytes([0x12, 0x34, 0x56, 0x78])))
@@ -219,7 +222,7 @@ def e2_checks(pid, tier, seed):
         combos = [(0, 0), (1, 1), (2, 2)] if q else [(s_, b_) for s_ in range(3) for b_ in range(3)]
         for (s_, b_) in combos:
             out.append(e2e('e2e_s%d_b%d_two' % (s_, b_), s_, b_, ['close', 'open_min'], (1, 1, 0), 2 if q else 3))
-        out.append(e2e('e2e_file3_content', 0, 1, ['file3'], (0, 0, 1), 2, sym_content=6))
+        out.append(e2e('e2e_list1_content', 0, 1, ['list1'], (0, 0, 1), 2, sym_content=2 if q else 4))
         out.append(e2e('e2e_list_noise2', 1, 2, ['list1', 'close'], (2, 0, 1), 1))
         if not q:
             out.append(e2e('e2e_three_msgs', 2, 0, ['file3', 'list_vals_misc'], (1, 1, 1), 3))
@@ -275,14 +278,21 @@ def len_attack_specs(tier):
     # beyond 2^32-1) in both tiers; the other fields get 2 and 4 symbolic bytes in the quick tier
     list_tl = [i for i in tl_positions if fb[i] == 0x71 and i > 15][:1]
     key = set(tl_positions[1:2] + list_tl)
+    def nib9(first_hi):
+        # 9-byte TLF with concrete structure bits and a fully symbolic 36-bit length: every declared length up to and beyond 2^32-1
+        return [('nib', first_hi)] + [('nib', 0x8)] * 7 + [('nib', 0x0)]
     for pos in tl_positions:
-        ns = (1, 2, 3, 5, 9) if not q else ((2, 4, 9) if pos in key else (2, 4))
+        ns = (1, 2, 3, 5, 9) if not q else (2, 4)
         for n in ns:
             cells = fb[:pos] + S(n) + fb[pos + 1:]
             out.append(spec('c06_len_p%d_n%d' % (pos, n), 'chk_parse_c06', cells, 'get-list file with the type-length byte at offset %d replaced by %d symbolic bytes' % (pos, n), max_seconds=900 if q else 3000))
-    # the same through the streaming-only allocation check
-    for pos in (sorted(key) if q else tl_positions):
-        n = 9
-        cells = fb[:pos] + S(n) + fb[pos + 1:]
-        out.append(spec('c06_noalloc_len_p%d' % pos, 'chk_stream_noalloc', cells, 'streaming parser, TL byte at offset %d replaced by %d symbolic bytes' % (pos, n), max_seconds=900 if q else 3000))
+    for pos in sorted(key):
+        hi = 0x8 | (fb[pos] >> 4)
+        cells = fb[:pos] + nib9(hi) + fb[pos + 1:]
+        out.append(spec('c06_len36_p%d' % pos, 'chk_parse_c06', cells, 'TL byte at offset %d replaced by a 9-byte TLF of the same type whose 36 length bits are symbolic (all declared lengths 0 .. 2^36-1)' % pos, max_seconds=900))
+        out.append(spec('c06_noalloc_len36_p%d' % pos, 'chk_stream_noalloc', cells, 'streaming parser, same 9-byte TLF with 36 symbolic length bits at offset %d' % pos, max_seconds=900))
+    if not q:
+        for pos in tl_positions:
+            cells = fb[:pos] + S(9) + fb[pos + 1:]
+            out.append(spec('c06_noalloc_len_p%d' % pos, 'chk_stream_noalloc', cells, 'streaming parser, TL byte at offset %d replaced by 9 symbolic bytes' % pos, max_seconds=3000))
     return out
